@@ -10,8 +10,8 @@ CONSTANT MaxLen
 
 OV == {"x", "y", "z"}
 Ops == [op : {"new", "inc", "add", "total", "twice", "readn", "writen", "opn", "pushitems", "bumpvia", "setb", "inlist", "unwrap_reassign"}, v : OV]
-       \cup [op : {"alias", "fork", "me", "is", "adopt"}, v : OV, w : OV]
-       \cup [op : {"pair_bump_a", "pair_read_b", "pair_b_inc", "outside"}]
+       \cup [op : {"alias", "fork", "me", "is", "adopt", "read_op_inc"}, v : OV, w : OV]
+       \cup [op : {"pair_bump_a", "pair_read_b", "pair_b_inc", "outside", "finc", "ftotal", "fnew"}]
 
 VARIABLE hist
 Init == hist = <<>>
@@ -35,7 +35,19 @@ Counter ==
                    Method("me", <<>>, "Self", <<Ret(Self)>>),
                    Method("adopt", <<P("other", "Self")>>, "int", <<SetSelf("n", Bin("+", SelfF("n"), Fld(V("other"), "n"))),
                                                                      Assign(Fld(V("other"), "n"), "=", I(0)), Ret(SelfF("n"))>>),
-                   Method("outside", <<>>, "int", <<Ret(Bin("+", V("made"), SelfF("n")))>>)>>]
+                   Method("outside", <<>>, "int", <<Ret(Bin("+", V("made"), SelfF("n")))>>),
+                   \* a field read whose right neighbour writes the field: left to right, the read comes first
+                   Method("bumpsum", <<>>, "int", <<Ret(Bin("+", SelfF("n"), MCall(Self, "inc", <<>>)))>>)>>]
+(* a second module with its own, different class of the same name *)
+LibCounter ==
+    [k |-> "class", n |-> "Counter", export |-> TRUE,
+     fields |-> <<Field("n", "int")>>,
+     ctor |-> <<[ps |-> <<P("start", "int")>>, b |-> <<SetSelf("n", V("start"))>>]>>,
+     methods |-> <<Method("inc", <<>>, "int", <<SetSelf("n", Bin("*", SelfF("n"), I(2))), Ret(SelfF("n"))>>),
+                   Method("total", <<>>, "int", <<Ret(Bin("-", SelfF("n"), I(1)))>>)>>]
+LibBody == <<LibCounter,
+             [k |-> "let", n |-> "mk", ty |-> "fn(int) -> Counter", mod |-> FALSE, const |-> FALSE, export |-> TRUE,
+              e |-> Fn("mk", <<P("s", "int")>>, "Counter", <<Ret(New("Counter", <<V("s")>>))>>)]>>
 Pair ==
     [k |-> "class", n |-> "Pair", export |-> FALSE,
      fields |-> <<Field("a", "Counter"), Field("b", "Counter?")>>,
@@ -44,8 +56,10 @@ Pair ==
                    Method("bump_a", <<>>, "int", <<Ret(MCall(SelfF("a"), "inc", <<>>))>>),
                    Method("has_b", <<>>, "bool", <<Ret(Bin("!=", SelfF("b"), Nil))>>)>>]
 
-Prologue == <<Let("made", I(0)), Counter, Pair,
-              Let("x", New("Counter", <<I(1)>>)), Let("y", New("Counter", <<I(2)>>)), Let("z", V("x")),
+Prologue == <<[k |-> "import", form |-> "names", path |-> "lib", names |-> <<"mk">>],
+              Let("made", I(0)), Counter, Pair,
+              Let("x", New("Counter", <<I(1)>>)), Let("f", Call(V("mk"), <<I(3)>>)),
+              Let("y", New("Counter", <<I(2)>>)), Let("z", V("x")),
               Let("p", New("Pair", <<V("x")>>)),
               LetT("ls", "[Counter...]", List(<<V("y")>>))>>
 
@@ -54,7 +68,7 @@ Observe == ObsOne("x") \o ObsOne("y") \o ObsOne("z")
            \o <<Print(Bin("is", V("x"), V("y"))), Print(Bin("is", V("x"), V("z"))), Print(Bin("is", V("y"), V("z"))),
                 Print(Fld(Fld(V("p"), "a"), "n")), Print(MCall(V("p"), "has_b", <<>>)),
                 If(MCall(V("p"), "has_b", <<>>), <<Let("pbo", Get(Fld(V("p"), "b"))), Print(Bin("is", V("pbo"), V("x"))), Print(Bin("is", V("pbo"), V("y")))>>),
-                Print(MCall(V("ls"), "len", <<>>)), Print(V("made"))>>
+                Print(MCall(V("ls"), "len", <<>>)), Print(V("made")), Print(Fld(V("f"), "n"))>>
 
 Stmts(o, k) ==
     CASE o.op = "new" -> <<Let(o.v, New("Counter", <<I(10 * k)>>))>>
@@ -84,6 +98,10 @@ Stmts(o, k) ==
       [] o.op = "pair_read_b" -> <<If(MCall(V("p"), "has_b", <<>>), <<Print(Fld(Get(Fld(V("p"), "b")), "n"))>>)>>
       [] o.op = "pair_b_inc" -> <<If(MCall(V("p"), "has_b", <<>>), <<Let("pb", Get(Fld(V("p"), "b"))), Print(MCall(V("pb"), "inc", <<>>))>>)>>
       [] o.op = "outside" -> <<Print(MCall(V("x"), "outside", <<>>))>>
+      [] o.op = "read_op_inc" -> <<Print(Bin("-", Fld(V(o.v), "n"), MCall(V(o.w), "inc", <<>>))), Print(MCall(V(o.v), "bumpsum", <<>>))>>
+      [] o.op = "finc" -> <<Print(MCall(V("f"), "inc", <<>>))>>
+      [] o.op = "ftotal" -> <<Print(MCall(V("f"), "total", <<>>))>>
+      [] o.op = "fnew" -> <<Let("f", Call(V("mk"), <<I(4 + k)>>)), Print(MCall(V("f"), "inc", <<>>))>>
 
 RECURSIVE Steps(_, _)
 Steps(h, k) == IF k > Len(h) THEN <<>> ELSE Stmts(h[k], k) \o Observe \o Steps(h, k + 1)
@@ -93,5 +111,6 @@ EmitLight == hist # <<>> => PrintT("CASE " \o ToJson([hist |-> hist]))
 Selected == ndJsonDeserialize(IOEnv.SELECT)
 InitSel == \E i \in 1..Len(Selected) : hist = Selected[i].hist
 Stutter == UNCHANGED hist
-EmitCase == hist # <<>> => PrintT("CASE " \o ToJson([hist |-> hist, prog |-> [body |-> Body(hist)]]))
+Project(h) == [entry |-> 1, mods |-> <<[name |-> "main", body |-> Body(h)], [name |-> "lib", body |-> LibBody]>>]
+EmitCase == hist # <<>> => PrintT("CASE " \o ToJson([hist |-> hist, prog |-> Project(hist)]))
 =============================================================================
